@@ -86,6 +86,10 @@ AfterCoerce ==
        \cup (IF \A i \in 1..Len(E.c) : (IsNull(E.c[i]) /\ HoldsNull(T)) => E.null_out[i]
              THEN {} ELSE {"NullsStayNull"})
        \cup (IF E.conforming => E.identical THEN {} ELSE {"ConformingIsIdentity"})
+       (* an element that cannot be converted individually must not be turned into a missing value behind    *)
+       (* the caller's back: that is neither "conforming data" nor "names the uncoercible values"             *)
+       \cup (IF \A i \in 1..Len(E.c) : (~IsNull(E.c[i]) /\ ~E.cv[i]) => ~E.null_out[i]
+             THEN {} ELSE {"UnconvertibleValueNulled"})
   ELSE IF E.outcome = "parser" THEN
        (IF Rng(E.fc) = FailSet /\ E.fc_vals_ok THEN {} ELSE {"FailureCasesExact"})
        \cup (IF E.conforming THEN {"ConformingIsIdentity"} ELSE {})
